@@ -281,10 +281,16 @@ Definition bind_matches (bip dip : ip) : bool :=
 
 (* Tcp::receive_from_network, Segment::Syn, at host d; second component: the
    "server socket buffer full" panic *)
+Definition routed_to (k : conn) (d : N) : bool :=
+  match k_dhost k with Some d' => N.eqb d' d | None => false end.
+
 Definition syn_arrive (w : world) (d : N) (c : N) : world * bool :=
   match get_conn w c, get_host w d with
   | Some k, Some hs =>
       let '(dip, dport) := k_remote k in
+      (* top.rs keys `deliverable` by dst.ip(): a SYN only ever reaches the host that owns
+         its destination address; anything else is not a delivery of this SYN *)
+      if negb (routed_to k d) then (upd_conn w c (fun k' => set_syn k' SynGone), false) else
       match find_bind hs dport with
       | None => (upd_conn w c (fun k' => set_syn k' SynGone), false)
       | Some b =>
